@@ -8,8 +8,14 @@ package c13
 import (
 	"encoding/json"
 	"fmt"
+	"io"
+	"log"
+	nethttp "net/http"
+	"net/http/httptest"
 	"sort"
+	"strconv"
 	"strings"
+	"time"
 
 	"verif/harness/vh"
 )
@@ -156,6 +162,12 @@ func canon(status, commits int, h map[string][]string, body string) string {
 // goSpec is written independently of the Lean model: a single pass that
 // freezes status and headers at the first committing operation.
 func goSpec(ops []op) string {
+	st, cm, h, body := specOf(ops)
+	return canon(st, cm, h, body)
+}
+
+// specOf: (status, commits, headers at the commit, body) of the commit-once reference.
+func specOf(ops []op) (int, int, hdr, string) {
 	h := hdr{}
 	status, statusSet := 200, false
 	frozen := false
@@ -220,12 +232,69 @@ func goSpec(ops []op) string {
 		}
 	}
 	if frozen {
-		return canon(fStatus, 1, fHdr, body)
+		return fStatus, 1, fHdr, body
 	}
 	if statusSet {
-		return canon(status, 1, h, body)
+		return status, 1, h, body
 	}
-	return canon(200, 0, h, body)
+	return 200, 0, h, body
+}
+
+// judge decides what a difference between the recorder's view and the reference means. The property
+// speaks of the status, of every header SET BY THE SCRIPT before the commit, of the body and of the
+// number of commits; a header the implementation adds on its own is a difference from the model
+// (a correspondence mismatch), not a violation — unless it is a Content-Length that contradicts the
+// body the handler goes on to write: the connection then rejects the later writes and the client
+// does not receive the concatenation of all body writes.
+func judge(c *vh.Ctx, ops []op, rw *vh.CountingRW, pan any) {
+	cas := map[string]any{"kind": "resp", "ops": ops}
+	wSt, wCm, wH, wBody := specOf(ops)
+	want := canon(wSt, wCm, wH, wBody)
+	if pan != nil {
+		c.Violation("resp:panic", fmt.Sprintf("handler panicked: %v (reference: %q)", pan, want), cas)
+		return
+	}
+	h := rw.Snap
+	if h == nil {
+		h = rw.Header()
+	}
+	impl := canon(rw.Code, rw.Commits, h, rw.Body.String())
+	if impl == want {
+		return
+	}
+	bad := func(field, what string) {
+		c.Violation("resp:"+field, fmt.Sprintf("response differs from commit-once reference (%s): got %q want %q", what, impl, want), cas)
+	}
+	switch {
+	case rw.Code != wSt:
+		bad("status", "status")
+		return
+	case rw.Commits != wCm:
+		bad("commits", "header commits on the underlying writer")
+		return
+	case rw.Body.String() != wBody:
+		bad("body", "body")
+		return
+	}
+	for k, vs := range wH {
+		if strings.Join(h[k], ",") != strings.Join(vs, ",") {
+			bad("hdr", "header "+k+" set before the commit")
+			return
+		}
+	}
+	for k, vs := range h {
+		if _, ok := wH[k]; ok {
+			continue
+		}
+		if k == "Content-Length" {
+			if n, err := strconv.Atoi(strings.Join(vs, ",")); err != nil || n != len(wBody) {
+				c.Violation("resp:content-length-contradicts-body", fmt.Sprintf("the committed header block declares Content-Length %s, the handler's body writes add up to %d bytes (%q): a connection rejects the writes past the declared length: got %q want %q", strings.Join(vs, ","), len(wBody), wBody, impl, want), cas)
+				return
+			}
+		}
+		c.Mismatch(cas, impl, want, "header "+k+" not set by the script and not in the reference")
+		return
+	}
 }
 
 // ------------------------------------------------------------ implementation side
@@ -311,14 +380,76 @@ func runBatch(c *vh.Ctx, m *vh.Model, batch [][]op) {
 			c.Hit("op:" + o.Kind)
 		}
 		c.SampleSome(map[string]any{"ops": lines[i], "impl": impl}, 997)
-		want := goSpec(ops)
-		if impl != want {
-			c.Violation("resp:"+firstDiffField(impl, want), fmt.Sprintf("response differs from commit-once reference: got %q want %q", impl, want), map[string]any{"kind": "resp", "ops": ops})
-		}
+		judge(c, ops, rw, pan)
 		if mres != nil && i < len(mres) && mres[i] != impl {
 			c.Mismatch(map[string]any{"kind": "resp", "ops": ops}, impl, mres[i], "bufferedWriter vs Model.Resp")
 		}
 	}
+	every := 1
+	if len(batch) > 1 && c.Tier != "thorough" {
+		every = 2
+	}
+	runClient(c, env, batch, every)
+}
+
+// ------------------------------------------------------------ client view (real connection)
+
+// runClient serves the same handlers over a real loopback connection and judges what an HTTP client
+// receives: the property's own words ("the client receives …"). A recorder accepts anything; a
+// connection enforces the committed header block (a declared Content-Length, a status that allows
+// no body), so a handler that breaks its own commit shows here as a truncated or missing response.
+func runClient(c *vh.Ctx, env *vh.HTTPEnv, batch [][]op, every int) {
+	srv := httptest.NewUnstartedServer(env.Mux)
+	srv.Config.ErrorLog = log.New(io.Discard, "", 0)
+	srv.Start()
+	defer srv.Close()
+	cl := &nethttp.Client{Timeout: 10 * time.Second, CheckRedirect: func(*nethttp.Request, []*nethttp.Request) error { return nethttp.ErrUseLastResponse }}
+	for i, ops := range batch {
+		if every > 1 && (i+len(ops))%every != 0 {
+			continue
+		}
+		cas := map[string]any{"kind": "client", "ops": ops}
+		wSt, _, wH, wBody := specOf(ops)
+		if wSt == 204 || wSt == 304 {
+			// a status that allows no body: what a write after it does is outside the statement
+			// ("the concatenation of all body writes" cannot be delivered); only the status is judged
+			wBody = ""
+		}
+		c.Hit("client:request")
+		resp, err := cl.Get(fmt.Sprintf("%s/c%d", srv.URL, i))
+		if err != nil {
+			if wSt == 204 || wSt == 304 {
+				c.Hit("client:no-body-status-then-write(not judged)")
+				continue
+			}
+			c.Violation("client:no-response", fmt.Sprintf("an HTTP client gets no response (%v); the reference gives status %d, body %q", shortErr(err), wSt, wBody), cas)
+			continue
+		}
+		body, rerr := io.ReadAll(resp.Body)
+		resp.Body.Close()
+		switch {
+		case resp.StatusCode != wSt:
+			c.Violation("client:status", fmt.Sprintf("an HTTP client receives status %d, the reference gives %d", resp.StatusCode, wSt), cas)
+			continue
+		case string(body) != wBody || rerr != nil:
+			c.Violation("client:body", fmt.Sprintf("an HTTP client receives body %q (read error: %v), the concatenation of all body writes is %q", body, rerr, wBody), cas)
+			continue
+		}
+		for k, vs := range wH {
+			if strings.Join(resp.Header.Values(k), ",") != strings.Join(vs, ",") {
+				c.Violation("client:hdr", fmt.Sprintf("an HTTP client receives header %s = %q, set before the commit: %q", k, resp.Header.Values(k), vs), cas)
+				break
+			}
+		}
+	}
+}
+
+func shortErr(err error) string {
+	s := err.Error()
+	if i := strings.LastIndex(s, ": "); i >= 0 {
+		return s[i+2:]
+	}
+	return s
 }
 
 // ------------------------------------------------------------ middleware
